@@ -7,7 +7,7 @@ class Contract:
     def __init__(self, file, qualname, params, returns=None, requires=(), ensures=(), raises=None,
                  ensures_exc=None, modifies=(), loops=None, pure=False, fresh_result=False,
                  props=(), assumed=False, note="", types=None, locals_types=None, inline_ok=False,
-                 allow_exc=(), shards=1, cuts=None):
+                 allow_exc=(), shards=1, cuts=None, sites=None):
         self.file = file
         self.qualname = qualname
         self.params = dict(params)  # name -> Ty (or ('opt', Ty))
@@ -28,6 +28,7 @@ class Contract:
         self.shards = shards
         # program-point assertions acting as abstraction barriers: 'statement source prefix[@n]' -> [spec exprs]
         self.cuts = dict(cuts or {})
+        self.sites = dict(sites or {})   # 'dotted callee@n' (n-th call in source order, any depth) -> assertions proved there
 
     @property
     def key(self):
